@@ -260,6 +260,10 @@ func (f *Frame) assume(t T) {
 	if t.S == "true" {
 		return
 	}
+	if strings.Contains(t.S, "(forall ") || strings.Contains(t.S, "(exists ") {
+		// quantified assumption: named, and included in a query only when relevant to its goal
+		t = f.enc.lazyAssume(t)
+	}
 	f.pathAcc = append(f.pathAcc, t)
 }
 
@@ -818,12 +822,16 @@ func (f *Frame) loopHeader(li *loopInfo, preds []*ssa.BasicBlock) {
 	// 3. assume invariant
 	for _, inv := range li.spec.Invs {
 		tr := f.translator(b, li.phiSyms, f.st, li)
-		f.assume(tr.boolExpr(inv.Expr))
+		c := tr.boolExpr(inv.Expr)
+		if c.S == "true" && inv.Label != "auto-range" && mentionsIdent(inv.Expr) {
+			panic(trErr{fmt.Sprintf("loop %d invariant %q is vacuous at the loop head (translates to true): %s", li.ordinal, inv.Label, inv.Src)})
+		}
+		f.assume(c)
 	}
 	{
 		tr := f.translator(b, li.phiSyms, f.st, li)
 		for _, u := range li.spec.Uses {
-			f.enc.extras = append(f.enc.extras, tr.useInstance(u)...)
+			f.enc.extras = append(f.enc.extras, tr.tryUse(u)...)
 		}
 	}
 	// measure at header
@@ -956,7 +964,7 @@ func (f *Frame) addUses(o *Obl, uses []*Clause, tr *Translator) {
 		return
 	}
 	for _, u := range uses {
-		o.Extra = append(o.Extra, tr.useInstance(u)...)
+		o.Extra = append(o.Extra, tr.tryUse(u)...)
 	}
 }
 
@@ -964,13 +972,95 @@ func (f *Frame) addUses(o *Obl, uses []*Clause, tr *Translator) {
 
 func (f *Frame) collectNames() {
 	f.names = map[string][]nameRef{}
+	info := f.p.pkg.TypesInfo
+	// value of every expression that has a debug reference
+	type where struct {
+		val   ssa.Value
+		block *ssa.BasicBlock
+		idx   int
+	}
+	exprVal := map[ast.Expr]where{}
 	for _, b := range f.fn.Blocks {
 		for i, in := range b.Instrs {
 			if d, ok := in.(*ssa.DebugRef); ok {
+				if !d.IsAddr {
+					exprVal[d.Expr] = where{d.X, b, i}
+				}
 				if id, ok := d.Expr.(*ast.Ident); ok {
+					// a defining occurrence records the value BEFORE the definition: not usable
+					if info != nil {
+						if _, isDef := info.Defs[id]; isDef && !d.IsAddr {
+							continue
+						}
+					}
 					f.names[id.Name] = append(f.names[id.Name], nameRef{d.X, b, i, d.IsAddr})
 				}
 			}
 		}
 	}
+	// definitions and assignments `x := e`, `x = e`: the value of e right after it was computed
+	if syn := f.fn.Syntax(); syn != nil {
+		ast.Inspect(syn, func(n ast.Node) bool {
+			as, ok := n.(*ast.AssignStmt)
+			if !ok || len(as.Lhs) != len(as.Rhs) {
+				return true
+			}
+			for i, l := range as.Lhs {
+				id, ok := l.(*ast.Ident)
+				if !ok || id.Name == "_" {
+					continue
+				}
+				rhs := as.Rhs[i]
+				for {
+					if p, ok := rhs.(*ast.ParenExpr); ok {
+						rhs = p.X
+						continue
+					}
+					break
+				}
+				if w, ok := exprVal[rhs]; ok {
+					f.names[id.Name] = append(f.names[id.Name], nameRef{w.val, w.block, w.idx, false})
+				}
+			}
+			return true
+		})
+	}
+	// keep program order within a block (block index, then instruction index)
+	for k := range f.names {
+		refs := f.names[k]
+		sort.SliceStable(refs, func(i, j int) bool {
+			if refs[i].block.Index != refs[j].block.Index {
+				return refs[i].block.Index < refs[j].block.Index
+			}
+			return refs[i].idx < refs[j].idx
+		})
+		f.names[k] = refs
+	}
+}
+
+// mentionsIdent: the contract expression refers to at least one program variable.
+func mentionsIdent(e Expr) bool {
+	switch x := e.(type) {
+	case *EIdent:
+		return true
+	case *EUnary:
+		return mentionsIdent(x.X)
+	case *EBinary:
+		return mentionsIdent(x.X) || mentionsIdent(x.Y)
+	case *ECall:
+		for _, a := range x.Args {
+			if mentionsIdent(a) {
+				return true
+			}
+		}
+	case *ESel:
+		return mentionsIdent(x.X)
+	case *EIndex:
+		return mentionsIdent(x.X) || mentionsIdent(x.I)
+	case *EQuant:
+		return mentionsIdent(x.Body)
+	case *ESlice:
+		return mentionsIdent(x.X)
+	}
+	return false
 }
